@@ -204,7 +204,8 @@ def classify(case, impl, model, disc):
 
 LEVEL_TEXT = ("Proof: C17_selection_exact, C17_rows_exact (one row per name of either selection, none twice; counts and durations are those of the matching "
               "events), C17_classes_partition (exactly one of ops_diff's five masks holds for every listed name) + C17_classes_meaning, C17_self_compare; for all "
-              "frames and selections. Correspondence on every row of compare_traces and the five lists of ops_diff, long and short names.")
+              "frames and selections. Correspondence on every row of compare_traces and the five lists of ops_diff, long and short names."
+              " C17_resolution_independent: durations multiplied by k give the same names and counts and k times the total durations.")
 LEVEL_NOTE = ("Hand model of extract_ops / get_ops_summary / compare_traces / ops_diff and of shorten_name (bracket-matching stack). pandas group-by and outer "
               "concat are modelled as count/sum per key over the de-duplicated key list.")
 TECHNIQUE = "Coq proof over a Gallina model (counting per key, lia over the five masks) + differential correspondence via vm_compute"
